@@ -120,6 +120,18 @@ func (o *Obs) rowChanged(pid string) bool {
 	return a.canon() != b.canon()
 }
 
+func (o *Obs) rowsChanged() bool {
+	if len(o.RowsBefore) != len(o.RowsAfter) {
+		return true
+	}
+	for pid := range o.RowsBefore {
+		if o.rowChanged(pid) {
+			return true
+		}
+	}
+	return false
+}
+
 func (o *Obs) dbChanged() bool {
 	if len(o.RowsBefore) != len(o.RowsAfter) {
 		return true
